@@ -104,7 +104,7 @@ def decode_matches(x):
 def decode(sx, case):
     if sx[0] == "unsupported":
         return {"model": {}, "spec": {}, "in_domain": False, "skip": True}
-    _, fi, fa, spec, wf = sx
+    _, fi, fa, spec, wf = sx[:5]
     model = {"text": text_of(case)}
     model["matches"] = decode_matches(fi[1]) if fi[0] == "ok" else ["err", fi[1]]
     model["doc_unchanged"] = True
@@ -112,7 +112,8 @@ def decode(sx, case):
     if spec != "na":
         sp["nodes"] = [[[p if isinstance(p, int) else ["k", p] for p in sx_to_loc(n[0])], SX.canon(SX.sx2j(n[1]))]
                        for n in spec[1]]
-    return {"model": model, "spec": sp, "in_domain": std_ok(case["segs"]) and wf[1] == "true"}
+    std = sx[7][1] == "true"
+    return {"model": model, "spec": sp, "in_domain": std and wf[1] == "true"}
 
 
 def project(case, res, dec=None):
